@@ -200,6 +200,21 @@ theorem countAt_scale (s : Rat) (vs : List Var) (a : Asg) : ∀ data : Data,
     congr 1
     split <;> simp
 
+/-- **a prior of zero pseudo-counts is no prior**: on every parent configuration that occurs in the data the
+    Bayesian estimate with all pseudo-counts 0 is the maximum-likelihood estimate -/
+theorem C06_bayes_zero_prior (K : Var → Nat) (cnt pseudo : Factor) (hc : cnt.WF K) (hp : pseudo.WF K)
+    (c : Var) (ps : List Var) (hs : cnt.scope = c :: ps) (hsp : ∀ v ∈ pseudo.scope, v ∈ cnt.scope)
+    (a : Asg) (ha : Bounded K a) (hz : ∀ b, Bounded K b → pseudo.den b = 0)
+    (hne : sumVar K c cnt.den a ≠ 0) :
+    (bayesFrom cnt pseudo).den a = (mleFrom cnt).den a := by
+  have hsum : sumVar K c (fun b => cnt.den b + pseudo.den b) a = sumVar K c cnt.den a := by
+    rw [sumVar_eq, sumVar_eq]
+    apply Finset.sum_congr rfl
+    intro x hx
+    rw [hz _ (upd_bounded ha c x (Finset.mem_range.mp hx)), add_zero]
+  rw [C06_bayes_closed_form K cnt pseudo hc hp c ps hs hsp a ha (by rw [hsum]; exact hne),
+      C06_mle_closed_form K cnt hc c ps hs a ha, hsum, if_neg hne, hz a ha, add_zero]
+
 /-- **row weights matter only through their ratios**: multiplying every weight by the same non-zero number (weights given on the
     scale of 1e-12, or in thousands) leaves the maximum-likelihood CPD unchanged -/
 theorem C06_mle_weight_scale (data : Data) (K : Var → Nat) (child : Var) (parents : List Var)
